@@ -128,8 +128,12 @@ fn child_main(rest: &[String]) -> ! {
 }
 
 fn run_child(mode: &str, t: &Triple) -> Result<Vec<String>, String> {
+    run_child_ctx(mode, t, &t.ctx)
+}
+
+fn run_child_ctx(mode: &str, t: &Triple, dctx: &dirty::DirtyCtx) -> Result<Vec<String>, String> {
     let exe = std::env::current_exe().map_err(|e| e.to_string())?;
-    let ctx_json = serde_json::to_string(&t.ctx).map_err(|e| e.to_string())?;
+    let ctx_json = serde_json::to_string(dctx).map_err(|e| e.to_string())?;
     let out = std::process::Command::new(exe)
         .args([mode, &t.harness, &t.seed.to_string(), &t.preset, &t.n.to_string(), &ctx_json])
         .env_remove("VERIF_SEED")
@@ -404,10 +408,25 @@ fn check_triple(t: &Triple, ctx: &mut CaseCtx<'_>) -> Result<(), String> {
         let hp = s.spawn(|| run_child("pair", t));
         let h1 = s.spawn(|| run_child("child", t));
         let h2 = s.spawn(|| run_child("child", t));
-        let hd = s.spawn(|| run_child("dirty", t));
+        let variants = dirty_variants(t);
+        let hd = s.spawn(move || {
+            // every variant must reproduce the pristine transcript; the first that does not is kept
+            let mut first: Option<(Vec<String>, dirty::DirtyCtx)> = None;
+            let mut differing: Option<(Vec<String>, dirty::DirtyCtx)> = None;
+            for v in variants {
+                let lines = run_child_ctx("dirty", t, &v)?;
+                if first.is_none() {
+                    first = Some((lines.clone(), v.clone()));
+                } else if differing.is_none() && Some(&lines) != first.as_ref().map(|f| &f.0) {
+                    differing = Some((lines, v));
+                }
+            }
+            Ok::<_, String>((first, differing))
+        });
         (hp.join(), h1.join(), h2.join(), hd.join())
     });
-    let d = d.map_err(|_| "child runner thread died".to_string())??;
+    let (dfirst, ddiff) = d.map_err(|_| "child runner thread died".to_string())??;
+    let (d_first_lines, d_first_ctx) = dfirst.ok_or_else(|| "no dirty run".to_string())?;
     let pair = pair.map_err(|_| "child runner thread died".to_string())??;
     let cut = pair
         .iter()
@@ -462,6 +481,13 @@ fn check_triple(t: &Triple, ctx: &mut CaseCtx<'_>) -> Result<(), String> {
     }
     let hashes = [transcript_hash(&p1), transcript_hash(&p2), transcript_hash(&c1), transcript_hash(&c2)];
     let p1m = mask_ambient_stats(&p1);
+    // the dirty transcript that is compared: the first variant, unless that one equals the
+    // pristine transcript and a later variant does not
+    let (d, dctx_used) = match ddiff {
+        Some((lines, c)) if d_first_lines == p1m => (lines, c),
+        _ => (d_first_lines, d_first_ctx),
+    };
+    ctx.add_evaluations(dirty_variants(t).len().saturating_sub(1) as u64);
     if hashes.iter().all(|h| *h == hashes[0]) && p1 == p2 && p1 == c1 && p1 == c2 && p1m == d {
         ctx.label("identical");
         return Ok(());
@@ -531,7 +557,7 @@ fn check_triple(t: &Triple, ctx: &mut CaseCtx<'_>) -> Result<(), String> {
         clip(show(other, at)),
         if at > 0 { clip(show(&p1, at - 1)) } else { "<none>".into() },
         hashes
-    ) + &if only_dirty { format!("\n    dirty context: {:?}", t.ctx) } else { String::new() })
+    ) + &if only_dirty { format!("\n    dirty context: {:?}", dctx_used) } else { String::new() })
 }
 
 fn dirty_strategy() -> impl Strategy<Value = dirty::DirtyCtx> {
@@ -708,7 +734,7 @@ fn param_form(hname: &str, preset: &str) -> Option<String> {
 /// the other parameters, so "same num_keys, other skew" and "same skew, other num_keys" are
 /// both always present). `pick` only selects WHICH other value a field takes.
 fn neighbours_all(hname: &'static str, seed: u64, preset: &str, n: u32, pick: u16) -> Vec<dirty::Warm> {
-    let mut v = vec![neighbour(hname, seed, preset, n, 0, pick), neighbour(hname, seed, preset, n, 2, pick)];
+    let mut v = Vec::new();
     match param_form(hname, preset) {
         Some(pf) => {
             let nparams = pf.split(',').count() as u16;
@@ -720,7 +746,37 @@ fn neighbours_all(hname: &'static str, seed: u64, preset: &str, n: u32, pick: u1
         }
         None => v.push(neighbour(hname, seed, preset, n, 1, pick)),
     }
+    v.push(neighbour(hname, seed, preset, n, 0, pick));
+    v.push(neighbour(hname, seed, preset, n, 2, pick));
     v
+}
+
+/// The dirty contexts actually run for a triple. A memo / cache keyed on PART of a configuration
+/// may keep the first or the last entry it sees, and a neighbour that shares the key AND the
+/// remaining parameters with the run under test re-populates it correctly. For a parameterised
+/// configuration every one-parameter neighbour therefore gets its own dirty run in which it comes
+/// first (and another one last): rotation r runs [P_r, seed-neighbour, n-neighbour, P_r+1, …, P_r-1].
+fn dirty_variants(t: &Triple) -> Vec<dirty::DirtyCtx> {
+    let k = match param_form(&t.harness, &t.preset) {
+        Some(pf) => pf.split(',').count(),
+        None => 0,
+    };
+    if k == 0 || t.ctx.neighbours.len() < k + 2 {
+        return vec![t.ctx.clone()];
+    }
+    let (params, rest) = t.ctx.neighbours.split_at(k);
+    (0..k)
+        .map(|r| {
+            let mut c = t.ctx.clone();
+            let mut nb = vec![params[r].clone()];
+            nb.extend(rest.iter().cloned());
+            for j in 1..k {
+                nb.push(params[(r + j) % k].clone());
+            }
+            c.neighbours = nb;
+            c
+        })
+        .collect()
 }
 
 fn triple_strategy(hname: &'static str, thorough: bool) -> impl Strategy<Value = Triple> {
